@@ -209,14 +209,26 @@ package vm
 // leaves none pending: the VM never meets a monetary without an amount.
 //@ def pendingBal(v) = typeis(v, "machine.Monetary") && as(v, "machine.Monetary").Amount == nil
 //@ def pendingRegistered(m) = (forall i9 in 0..len(m.Resources) :: pendingBal(m.Resources[i9]) ==> has(m.UnresolvedResourceBalances, i9)) && (forall k9 int :: has(m.UnresolvedResourceBalances, k9) ==> 0 <= k9 && k9 < len(m.Resources) && typeis(m.Resources[k9], "machine.Monetary"))
+// C02: the accounts the engine locks for writing are what this function reports as involved sources: for every
+// source address of the program whose resource is an account, its address string, position by position
+//@ def isAcct(v) = typeis(v, "machine.AccountAddress")
+//@ def acctStr(v) = as(v, "machine.AccountAddress")
 //@ func (*vm.Machine).ResolveResources
 //@   requires m != nil && m.UnresolvedResourceBalances != nil && pendingRegistered(m)
+//@   requires len(m.Resources) == 0 // C02
+// resource addresses are 16 bits wide; the compiler never allocates more (pvInv in the compiler's contracts)
+//@   assumes len(m.UnresolvedResources) <= 65536
+//@   ensures err == nil ==> len(ret1) == len(m.Program.Sources) && (forall j8 in 0..len(m.Program.Sources) :: 0 <= m.Program.Sources[j8] && m.Program.Sources[j8] < len(m.Resources) && isAcct(m.Resources[m.Program.Sources[j8]]) ==> ret1[j8] == acctStr(m.Resources[m.Program.Sources[j8]])) // C02
+//@   loop 1 invariant len(m.Resources) <= len(m.UnresolvedResources) && m.UnresolvedResources == old(m.UnresolvedResources)
+//@   loop 1 invariant forall i6 in 0..len(m.Resources) :: isAcct(m.Resources[i6]) ==> has(involvedAccountsMap, i6) && involvedAccountsMap[i6] == acctStr(m.Resources[i6])
+//@   loop 3 invariant 0 - 1 <= rangeindex && rangeindex < len(m.Program.Sources) && len(involvedSources) == rangeindex + 1
+//@   loop 3 invariant forall j7 in 0..rangeindex+1 :: involvedSources[j7] == involvedAccountsMap[m.Program.Sources[j7]]
 //@   assumes forall n9 string :: has(m.Vars, n9) ==> !pendingBal(m.Vars[n9])
 //@   ensures err == nil ==> pendingRegistered(m) // C12
 //@   loop 1 invariant pendingRegistered(m) && m.UnresolvedResourceBalances == old(m.UnresolvedResourceBalances)
 //@   ensures m.Program == old(m.Program) && m.UnresolvedResources == old(m.UnresolvedResources) // C08: the (possibly cached, shared) program is never written
 //@   modifies Machine.resolveCalled, Machine.Resources, map[int]string, map[machine.Address]string
-//@   property C12
+//@   property C12 C02
 //@   alsofor C08
 //@ func (*vm.Machine).ResolveBalances
 //@   requires m != nil && pendingRegistered(m)
